@@ -55,6 +55,17 @@ CLAIMED = {
             "lxml/libxml2 honour the parser flags (audited, not proved); bounded time/memory clause not decided",
             "contract-based deductive verification: configuration-flow VCs with callee models + frame hook",
             "DESIGN.md section 4 C17"),
+    'C08': ("Round-trip and lexical-space contracts proved symbolically (unbounded) for the integer family, DateTime "
+            "(naive/UTC/every offset at once), Date, Time and Duration: the real encoder's output is kept as a token "
+            "string (literals + decimal renderings of integer terms), checked structurally against the XSD production, "
+            "and fed to the real decoder (regexes matched token-wise, int()/Decimal() of tokens as linear arithmetic); "
+            "lexical-coverage obligations run the decoder on generated literals of the XSD sub-language. The float "
+            "sub-lemma is settled by exhaustive enumeration (finite lemma, listed separately). Decimal, Double, Boolean, "
+            "ByteArray, Uuid, Unicode are bounded stand-ins over representative values.",
+            "CPython int/str/isoformat/datetime contracts (pyvc/timemodel.py); token-walk = leftmost-priority matching "
+            "for the fixed-structure patterns; open known findings listed in known_findings.jsonl",
+            "contract-based deductive verification: token-string VCs in linear integer arithmetic (z3) from the live AST",
+            "DESIGN.md section 4 C08"),
 }
 NOT_YET = {}
 for i in range(1, 19):
